@@ -16,9 +16,9 @@ for k in 1 2 3; do
   flags=""; grep -q 'verif_\|rnd::verif' "$demo" && flags="--cfg rdp_rs_verif"
   dn=demo_${low}_$k
   cargo test --offline --lib 2>&1 | grep -E '^test result' > /tmp/cm-$id$suf$k.unit
-  RUSTFLAGS="$flags" timeout 900 cargo test --offline --test $dn 2>&1 | grep -E '^test result|error(\[|:)' | head -3 > /tmp/cm-$id$suf$k.with
+  RUSTFLAGS="$flags" timeout 900 cargo test --offline --test $dn 2>&1 | grep -E "^test result" | head -3 > /tmp/cm-$id$suf$k.with
   git apply -R "$patch"
-  RUSTFLAGS="$flags" timeout 900 cargo test --offline --test $dn 2>&1 | grep -E '^test result|error(\[|:)' | head -3 > /tmp/cm-$id$suf$k.without
+  RUSTFLAGS="$flags" timeout 900 cargo test --offline --test $dn 2>&1 | grep -E "^test result" | head -3 > /tmp/cm-$id$suf$k.without
   ok=1
   grep -q '39 passed; 0 failed' /tmp/cm-$id$suf$k.unit || ok=0
   grep -q 'FAILED' /tmp/cm-$id$suf$k.with || ok=0
